@@ -280,34 +280,46 @@ def h_add_raw(k):
     return fn
 
 
-def h_forward_counts(n_reads):
-    """GraphBasedModelConstructor.forward_counts: every read supporting models is counted once, shared between
-    the models it supports"""
+def h_forward_counts(n_reads, n_models=2, delete=False):
+    """GraphBasedModelConstructor bookkeeping: reads are attached to models by the real save_assigned_read, a solver-chosen
+    model is discarded by the real delete_from_storage (as the model filters do), then forward_counts: every read
+    supporting surviving models is counted once, shared between the models it supports"""
+    from collections import defaultdict
+
     def fn(g):
         shims.CURRENT["g"] = g if g.symbolic else None
         c = lrc.create_transcript_counter(fresh_prefix("fwd"), "with_ambiguous")
-        models = ["M1", "M2"]
+        models = ["M%d" % (i + 1) for i in range(n_models)]
         mc = gbmc.GraphBasedModelConstructor.__new__(gbmc.GraphBasedModelConstructor)
         mc.transcript_counter = c
-        mc.transcript_read_ids = {m: [] for m in models}
-        mc.read_assignment_counts = {}
-        mc.transcript_model_storage = [Obj(transcript_id=m) for m in models]
+        mc.transcript_read_ids = defaultdict(list)
+        mc.internal_counter = defaultdict(int)
+        mc.read_assignment_counts = defaultdict(int)
+        for m in models:
+            mc.transcript_read_ids[m], mc.internal_counter[m] = [], 0
         support = []
         for i in range(n_reads):
-            s = g.choice("read%d_supports" % i, 4)    # bit mask over the two models
+            s = g.choice("read%d_supports" % i, 1 << n_models)    # bit mask over the models
             rid = "r%d" % i
             support.append(s)
-            mc.read_assignment_counts[rid] = bin(s).count("1")
+            mc.read_assignment_counts[rid] = 0
             for j, m in enumerate(models):
                 if s >> j & 1:
-                    mc.transcript_read_ids[m].append(Obj(read_id=rid, read_group="NA"))
+                    call(g, mc.save_assigned_read, Obj(read_id=rid, read_group="NA"), m)
+        dropped = g.choice("discarded_model", n_models + 1) if delete else n_models      # n_models: none
+        if dropped < n_models:
+            call(g, mc.delete_from_storage, models[dropped])
+            support = [s & ~(1 << dropped) for s in support]
+        alive = [m for j, m in enumerate(models) if j != dropped]
+        mc.transcript_model_storage = [Obj(transcript_id=m) for m in alive]
         call(g, mc.forward_counts)
+        det = {"support_masks": support, "discarded": models[dropped] if dropped < n_models else None}
         for j, m in enumerate(models):
-            exp = sum((1 if s == (1 << j) else (0.5 if (s >> j & 1) else 0)) for s in support)
-            g.check(c.feature_counter[m].get(0) == exp, "model count = sum of 1 or 1/k over its supporting reads")
-        g.check(c.not_assigned_reads == sum(1 for s in support if s == 0), "reads supporting no model are counted as __no_feature")
-        g.check(c.ambiguous_reads == sum(1 for s in support if s == 3), "reads shared by models are counted as __ambiguous")
-        g.check(set(models) <= c.confirmed_features, "reported models are confirmed features")
+            exp = sum(((1 / float_(bin(s).count("1"))) if (s >> j & 1) else 0) for s in support)
+            g.check(c.feature_counter[m].get(0) == exp, "model count = sum of 1 or 1/k over its supporting reads", detail=det)
+        g.check(c.not_assigned_reads == sum(1 for s in support if s == 0), "reads supporting no model are counted as __no_feature", detail=det)
+        g.check(c.ambiguous_reads == sum(1 for s in support if bin(s).count("1") > 1), "reads shared by models are counted as __ambiguous", detail=det)
+        g.check(set(alive) <= c.confirmed_features, "reported models are confirmed features")
     return fn
 
 
@@ -440,6 +452,13 @@ def instances(tier, seed):
         out.append(Instance("forward_counts[%d]" % n, h_forward_counts(n), ["src.graph_based_model_construction:GraphBasedModelConstructor.forward_counts",
                                                                          L + "AssignedFeatureCounter.add_read_info_raw"],
                             "%d reads x 2 models, arbitrary support relation" % n, weight=4 ** n))
+    for n, nm in (((2, 2), (2, 3)) if q else ((2, 2), (2, 3), (3, 3))):
+        out.append(Instance("discard_then_forward[reads=%d,models=%d]" % (n, nm), h_forward_counts(n, nm, True),
+                            ["src.graph_based_model_construction:GraphBasedModelConstructor.save_assigned_read",
+                             "src.graph_based_model_construction:GraphBasedModelConstructor.delete_from_storage",
+                             "src.graph_based_model_construction:GraphBasedModelConstructor.forward_counts", L + "AssignedFeatureCounter.add_read_info_raw"],
+                            "%d reads x %d models, arbitrary support relation, one solver-chosen model discarded before counting" % (n, nm),
+                            weight=(1 << nm) ** n))
     for n in ((1, 2) if q else (1, 2, 3)):
         for via in ("merge_counts", "merge_assignments", "merge_transcript_models"):
             out.append(Instance("merge[%s,chr=%d]" % (via, n), h_merge_counts(n, via),
